@@ -295,9 +295,15 @@ def valueClassProblems (kind : String) (entity impl : String) : List Problem :=
   else if (baseMembersOf [kind]).contains impl then [⟨"class-hides-inherited-member", entity, impl, "maybe"⟩]
   else []
 
+/-- some generated text (a class or member template, or a macro of sbepp.hpp that generated code invokes) says
+    `std::` without a leading `::` -/
+def stdUnqualifiedAnywhere : Bool :=
+  Templates.classTemplates.any (·.stdUnqualified) || !Templates.memberStdUnqualified.isEmpty ||
+  !Templates.macrosStdUnqualified.isEmpty
+
 /-- a type-like declaration `name` in a namespace in which the generator's text says `std::` -/
 def stdProblems (entity name : String) : List Problem :=
-  if name == "std" then [⟨"hides-namespace-std", entity, name, "maybe"⟩] else []
+  if name == "std" && stdUnqualifiedAnywhere then [⟨"hides-namespace-std", entity, name, "maybe"⟩] else []
 
 /-! ### the declarations of one schema -/
 
@@ -623,21 +629,27 @@ def reachable (types : List Elem) : Nat → List String → List String
     let new := next.filter (fun n => !acc.contains n)
     if new.isEmpty then acc else reachable types fuel (acc ++ new.eraseDups)
 
-/-- `dependencies.emplace(...)` for one field -/
+/-- the enum whose enumerator the accessor of a constant field prints (`E::X`, `value_ref_to_enumerator`) -/
+def valueRefNeeds (types : List Elem) (f : FieldDef) : List String :=
+  if constField types f then
+    (match f.valueRef, isPrimitive f.type, lookup types f.type with
+     | some r, true, _ => [canon types (enumOfValueRef r)]
+     | _, false, some (.type t) => constTypeNeeds types t
+     | some r, false, some (.enum _ _ _ _ _) => [canon types (enumOfValueRef r)]
+     | _, _, _ => [])
+  else []
+
+/-- `dependencies.emplace(...)` for one field: its type, and — when
+    `Extracted.Templates.valueRefRecordsDependency` says `value_ref_to_enumerator` records it — the enum of its
+    `valueRef` -/
 def fieldIncludes (types : List Elem) (f : FieldDef) : List String :=
-  if isPrimitive f.type then [] else [canon types f.type]
+  (if isPrimitive f.type then [] else [canon types f.type]) ++
+  (if Templates.valueRefRecordsDependency then valueRefNeeds types f else [])
 
 /-- public types the accessor of one field refers to: its type, and for constant fields the enum whose
-    enumerator is printed (`E::X`) -/
+    enumerator is printed -/
 def fieldNeeds (types : List Elem) (f : FieldDef) : List String :=
-  (if isPrimitive f.type then [] else [canon types f.type]) ++
-  (if constField types f then
-     (match f.valueRef, isPrimitive f.type, lookup types f.type with
-      | some r, true, _ => [canon types (enumOfValueRef r)]
-      | _, false, some (.type t) => constTypeNeeds types t
-      | some r, false, some (.enum _ _ _ _ _) => [canon types (enumOfValueRef r)]
-      | _, _, _ => [])
-   else [])
+  (if isPrimitive f.type then [] else [canon types f.type]) ++ valueRefNeeds types f
 
 mutual
   /-- `dependencies.emplace(...)` calls while a group is compiled: its dimension type, the types of its fields
